@@ -80,6 +80,29 @@ template <class M> struct Runner {
     ++pos;   // ")"
     return rs.Finish();
   }
+  float fragment(const std::vector<lm::WordIndex> &ws, ChartState &out) {
+    RuleScore<M> rs(m, out);
+    for (size_t i = 0; i < ws.size(); ++i) rs.Terminal(ws[i]);
+    return rs.Finish();
+  }
+  std::string partial(const std::vector<lm::WordIndex> &before, const std::vector<lm::WordIndex> &between, const std::vector<lm::WordIndex> &after) {
+    std::vector<lm::WordIndex> all(before); all.insert(all.end(), between.begin(), between.end()); all.insert(all.end(), after.begin(), after.end());
+    ChartState cf, cb, cm, ca;
+    float pf = fragment(all, cf), pb = fragment(before, cb), pm = fragment(between, cm), pa = fragment(after, ca);
+    Right bef(cb.right); Left aft(ca.left); aft.full = false;
+    float got = 0.0;
+    for (unsigned i = 1; i < KENLM_MAX_ORDER; ++i) {
+      if (cb.right.length >= i) { bef.length = i; got += RevealBefore(m, bef, i - 1, false, cm.left, cm.right); }
+      if (ca.left.length >= i) { aft.length = i; got += RevealAfter(m, cm.left, cm.right, aft, i - 1); }
+    }
+    if (ca.left.full) { aft.full = true; got += RevealAfter(m, cm.left, cm.right, aft, aft.length); }
+    if (cb.left.full) { got += RevealBefore(m, bef, bef.length, true, cm.left, cm.right); }
+    std::ostringstream o;
+    o << std::hex << bits(got) << ' ' << bits(pf) << ' ' << bits(pb) << ' ' << bits(pm) << ' ' << bits(pa) << ' '
+      << std::dec << (unsigned)cm.left.length << ' ' << (cm.left.full ? 1 : 0) << ' ';
+    print_state(o, cm.right);
+    return o.str();
+  }
   std::string score(bool bos, const std::vector<unsigned> &ids) {
     std::ostringstream o;
     State st = bos ? m.BeginSentenceState() : m.NullContextState();
@@ -151,6 +174,12 @@ template <class M> int run(const char *file, const std::vector<std::string> &voc
         std::vector<unsigned> ids; std::string x;
         while (in >> x) ids.push_back(strtoul(x.c_str(), NULL, 16));
         std::cout << r.score(bos, ids) << '\n';
+      } else if (cmd == "P") {
+        // partial.hh: P before.. ; between.. ; after..  -> CheckAdjustment of lm/partial_test.cc
+        std::vector<std::vector<lm::WordIndex> > parts(1); std::string x;
+        while (in >> x) { if (x == ";") parts.push_back(std::vector<lm::WordIndex>()); else parts.back().push_back(r.to_model.at(strtoul(x.c_str(), NULL, 16))); }
+        if (parts.size() != 3) { std::cout << "?\n"; continue; }
+        std::cout << r.partial(parts[0], parts[1], parts[2]) << '\n';
       } else if (cmd == "K") {
         // State comparison operators on raw states (words are arbitrary uint32, hex)
         State a, b; a.length = 0; b.length = 0; State *cur = &a; std::string x;
